@@ -81,6 +81,17 @@ LEVEL_NOTE = ('Trusted: ref/names.py capacity formulas and (A3,I2) print. Geomet
               'capacity edges are covered by the name generators, not by building each geometry.')
 
 NMAX = 20000
+BUILDERS = ('from_gmsh-2.2', 'from_gmsh-4.1', 'from_layermesh', 'from_amesh')
+CONSTRUCTOR_CHARSETS = ('lower', 'upper', 'abc', 'abcab', 'one', 'mixed12')
+CONSTRUCTOR_SIZES = {'quick': [(1, 1, 1), (2, 2, 2), (3, 2, 1), (12, 2, 1), (6, 5, 1), (10, 8, 1), (9, 9, 2)],
+                     'thorough': [(1, 1, 1), (2, 1, 2), (2, 2, 2), (3, 2, 1), (3, 3, 3), (4, 3, 2), (12, 2, 1), (1, 19, 1),
+                                  (6, 5, 1), (10, 8, 1), (9, 9, 2), (8, 10, 1)]}
+
+
+def nmax_for(cs, default=NMAX):
+    """A one-letter alphabet has at most 3 names: integers far beyond capacity + margin add nothing (and every call past
+    the capacity costs a full recursion on a tree that mishandles it)."""
+    return min(default, 60) if cs == 'one' else default
 CALL_LIMIT = 10          # seconds; backstop for one library call that normally takes microseconds .. milliseconds
 FILE_CYCLE_MAX_NODES = 1500      # geometries larger than this are not written to / re-read from a file
 UNIT_LIMIT = 900
@@ -122,8 +133,15 @@ def units(tier):
         for atm in range(3):
             for j in 'rl':
                 for cs in N.RECT_CHARSETS:
+                    if cs == 'upper':
+                        continue        # the same alphabet as 'lower-u'; kept for the other constructors
                     for sp in (True, False):
                         us.append(('G', conv, atm, j, cs, sp))
+    # the other constructors: from_gmsh (both file versions), from_layermesh, from_amesh
+    for builder in BUILDERS:
+        for conv in range(4):
+            for j in 'rl':
+                us.append(('C', builder, conv, j))
     for e in edge_cases(tier):
         us.append(('X',) + e)
     for a in range(4):
@@ -330,19 +348,28 @@ def check_int_to_chars(j, cs, sp, length, nmax=NMAX):
     def add(clause, n, what):
         viol.append(('C17|int_to_chars|%s|%s' % (clause, opts), what, n))
 
+    no_name = k == 1 and not sp          # one letter and no blanks: the only name belongs to the number 0
     for n in range(0, nmax + 1):
         try:
             name = m.int_to_chars(n, chars=chars, spaces=sp, length=length)
         except core.CaseTimeout:
             raise
-        except Exception as e:
+        except m.NamingConventionError as e:
+            if not (no_name and n >= 1):
+                add('premature-naming-error', n, 'int_to_chars(%d, chars=%s, %s) raised %r' % (n, cs, opts, e))
+            continue
+        except BaseException as e:
+            if isinstance(e, (KeyboardInterrupt, SystemExit)):
+                raise
             add('raises-%s' % type(e).__name__, n, 'int_to_chars(%d, chars=%s, %s) raised %r' % (n, cs, opts, e))
             continue
         if not isinstance(name, str) or any(c not in chars for c in name):
             add('foreign-letter', n, 'int_to_chars(%d, chars=%s, %s) returned %r' % (n, cs, opts, name))
             continue
         # length of the name: the smallest L whose capacity holds n
-        if sp:
+        if no_name and n >= 1:
+            want = len(name)          # any distinct longer name would do; only duplicates are asserted on
+        elif sp:
             want = 0
             while n > N.letter_capacity(k, want, True):
                 want += 1
@@ -445,9 +472,11 @@ def run_N(unit, tier, rec):
     _, conv, j, cs, sp = unit
     total = 0
     fresh = {}
+    base_sigs = set()
     for fname in GENERATORS:
         fresh[fname] = []
-        viol, n, oc = check_generator(fname, conv, j, cs, sp, collect=fresh[fname])
+        viol, n, oc = check_generator(fname, conv, j, cs, sp, nmax=nmax_for(cs), collect=fresh[fname])
+        base_sigs.update(sig for sig, what, num in viol)
         total += n
         for k, v in oc.items():
             rec.outcomes[k] += v
@@ -458,17 +487,19 @@ def run_N(unit, tier, rec):
     # the same generators on an object that reached these options by another route
     tr = 0
     for primer in primers(conv):
-        viol, n = check_generator_route(conv, j, cs, sp, primer, ROUTE_RANGE[tier], fresh)
+        viol, n = check_generator_route(conv, j, cs, sp, primer, nmax_for(cs, ROUTE_RANGE[tier]), fresh)
         tr += n
         for sig, what, num, fname in viol:
+            if sig.split('|after=')[0] in base_sigs:
+                continue            # the fresh object already fails this clause: the route adds nothing to report
             rec.violation(sig, what, {'kind': 'generator-route', 'fn': fname, 'conv': conv, 'justify': j, 'chars': cs,
-                                      'spaces': sp, 'n': num, 'primer': list(primer), 'range': ROUTE_RANGE[tier]})
+                                      'spaces': sp, 'n': num, 'primer': list(primer), 'range': nmax_for(cs, ROUTE_RANGE[tier])})
     rec.count('generator_calls_after_primer', tr)
     total += tr
     t2 = 0
     if conv == 0:      # int_to_chars does not depend on the convention
         for length in ((0, 2, 3) if sp else (2, 3)):
-            viol, n = check_int_to_chars(j, cs, sp, length)
+            viol, n = check_int_to_chars(j, cs, sp, length, nmax=nmax_for(cs))
             t2 += n
             for sig, what, num in viol:
                 rec.violation(sig, what, {'kind': 'int_to_chars', 'justify': j, 'chars': cs, 'spaces': sp,
@@ -588,10 +619,34 @@ def run_L(unit, tier, rec):
 # ---------------------------------------------------------------------------------------------------------
 # G / X: geometries
 
-def geometry_case(conv, atm, j, cs, sp, nx, ny, nz, file_cycle=None):
-    """Build one rectangular geometry and check every name in it.  -> (violations [(sig, what)], outcome)."""
+def build_geometry(m, builder, self_conv, conv, atm, j, chars_arg, case, sp, nx, ny, nz):
+    """One geometry through one of the library's constructors, called on an object of convention self_conv."""
+    from ref import meshfiles as MF
+    import os
+    host = m.mulgrid(convention=self_conv)
+    if builder == 'rectangular':
+        return host.rectangular([10.0] * nx, [10.0] * ny, [5.0] * nz, convention=conv, atmos_type=atm,
+                                justify=j, case=case, chars=chars_arg, spaces=sp)
+    d = core.scratch()
+    if builder.startswith('from_gmsh'):
+        path = os.path.join(d, 'c17_mesh.msh')
+        (MF.write_gmsh22 if builder.endswith('2.2') else MF.write_gmsh41)(path, nx, ny)
+        return host.from_gmsh(path, [5.0] * nz, convention=conv, atmos_type=atm, justify=j, chars=chars_arg, spaces=sp)
+    if builder == 'from_layermesh':
+        return host.from_layermesh(MF.fake_layermesh(nx, ny, nz), convention=conv, atmosphere_type=atm, justify=j,
+                                   chars=chars_arg, spaces=sp)
+    if builder == 'from_amesh':
+        inp, seg = MF.write_amesh(d, nx, ny, nz)
+        return host.from_amesh(inp, seg, convention=conv, justify=j, chars=chars_arg, spaces=sp)[0]
+    raise core.HarnessError('unknown builder %r' % builder)
+
+
+def geometry_case(conv, atm, j, cs, sp, nx, ny, nz, file_cycle=None, builder='rectangular', self_conv=0):
+    """Build one geometry and check every name in it.  -> (violations [(sig, what)], outcome)."""
     m = lib()
     chars_arg, case = N.RECT_CHARSETS[cs]
+    site = builder.split('-')[0]
+    route = '' if self_conv == 0 else '|called-on-convention-%d-object' % self_conv
     chars = N.effective_chars(chars_arg, case)
     ccap = N.column_capacity(conv, chars, sp)
     lcap = N.layer_capacity(conv, chars, sp)
@@ -603,16 +658,20 @@ def geometry_case(conv, atm, j, cs, sp, nx, ny, nz, file_cycle=None):
     rel = 'above-capacity' if expect_error else ('at-capacity' if (nn == ccap or nz == lcap) else 'below-capacity')
     opts = 'conv=%d' % conv
     lcap_lo = N.layer_capacity_lower_bound(conv, chars, sp)
-    desc = 'rectangular(%dx%dx%d, convention %d, atmos_type %d, justify %s, chars %s, spaces %s)' % (nx, ny, nz, conv, atm, j, cs, sp)
+    desc = '%s(%dx%dx%d, convention %d, atmos_type %d, justify %s, chars %s, spaces %s)%s' % (
+        builder, nx, ny, nz, conv, atm, j, cs, sp, '' if self_conv == 0 else ' called on a mulgrid(convention=%d)' % self_conv)
     viol = []
 
     def add(clause, what):
-        viol.append(('C17|rectangular|%s|%s,%s' % (clause, opts, rel), '%s: %s' % (desc, what)))
+        viol.append(('C17|%s|%s|%s,%s%s' % (site, clause, opts, rel, route), '%s: %s' % (desc, what)))
 
     try:
         with quiet():
-            geo = m.mulgrid().rectangular([10.0] * nx, [10.0] * ny, [5.0] * nz, convention=conv, atmos_type=atm,
-                                          justify=j, case=case, chars=chars_arg, spaces=sp)
+            with core.timelimit(CALL_LIMIT * 12):
+                geo = build_geometry(m, builder, self_conv, conv, atm, j, chars_arg, case, sp, nx, ny, nz)
+    except core.CaseTimeout:
+        add('does-not-terminate', 'no geometry within %d s' % (CALL_LIMIT * 12))
+        return viol, 'timeout'
     except m.NamingConventionError:
         # the geometry is not available, so the name the surface layer got is unknown: a layer count is certainly
         # nameable only up to the capacity less one (add_layers itself is checked exactly in the L units)
@@ -620,11 +679,14 @@ def geometry_case(conv, atm, j, cs, sp, nx, ny, nz, file_cycle=None):
             add('premature-naming-error', 'NamingConventionError although %d node, %d column and %d layer names are needed '
                 'and %d / %d exist' % (nn, nc, nz, ccap, lcap))
         return viol, 'naming-error'
-    except core.CaseTimeout:
-        raise
-    except Exception as e:
+    except BaseException as e:
+        if isinstance(e, (KeyboardInterrupt, SystemExit, core.HarnessError)):
+            raise
         add('raises-%s' % type(e).__name__, 'raised %r' % (e,))
         return viol, 'raised'
+    if (geo.convention, geo.atmosphere_type) != (conv, atm):
+        add('convention-not-as-asked', 'the geometry has convention %r, atmosphere type %r' % (geo.convention, geo.atmosphere_type))
+        return viol, 'geometry'
     if geo.layerlist and isinstance(geo.layerlist[0].name, str):
         lcap = N.layer_capacity(conv, chars, sp, geo.layerlist[0].name)
     if nn > ccap or nz > lcap:
@@ -878,7 +940,7 @@ def run_GR(unit, tier, rec):
 # column (node) of the geometry carries; split_column needs 1 column name, triangulate_column of an n-sided column needs
 # 1 node name and n column names (the replaced column's name is released afterwards), refine needs at least 1 node name.
 
-EDIT_CHARSETS = ('xy', 'xyz')
+EDIT_CHARSETS = ('xy', 'xyz', 'xyx')       # 'xyx': a repeated letter handed to the edit operations
 EDIT_SEQUENCES = ('split', 'triangulate', 'triangulate-then-split', 'refine')
 EDIT_GRIDS = ((2, 2), (3, 2), (3, 3), (6, 4), (7, 6))
 
@@ -912,7 +974,8 @@ def edit_postconditions(geo, CL, area0, ncols_want, nnodes_want):
 def edit_sequence(conv, cs, seq, spaces, atm, grid):
     """-> (violations [(sig, what, step)], operations applied, set of operations for which exhaustion was reached)."""
     m = lib()
-    chars = cs
+    chars_arg = cs
+    chars = N.uniq(cs)
     CL = N.COLNAME_LENGTH[conv]
     nx, ny = grid
     viol, reached = [], set()
@@ -924,7 +987,7 @@ def edit_sequence(conv, cs, seq, spaces, atm, grid):
     try:
         with quiet():
             geo = m.mulgrid().rectangular([10.0] * nx, [10.0] * ny, [5.0], convention=conv, atmos_type=atm,
-                                          justify='r', chars=chars, spaces=spaces)
+                                          justify='r', chars=chars_arg, spaces=spaces)
     except m.NamingConventionError:
         return viol, 0, reached          # this grid cannot be named with the alphabet: nothing to edit
     cap = N.letter_capacity(len(chars), CL, spaces if seq != 'split' else True)
@@ -943,17 +1006,17 @@ def edit_sequence(conv, cs, seq, spaces, atm, grid):
         if phase == 'split':
             col = quads[0]
             need_c, need_n, op = 1, 0, 'split_column'
-            call = lambda: geo.split_column(col.name, col.node[0].name, chars)
+            call = lambda: geo.split_column(col.name, col.node[0].name, chars_arg)
             want_cols, want_nodes = len(geo.columnlist) + 1, len(geo.nodelist)
         elif phase == 'triangulate':
             col = quads[0]
             need_c, need_n, op = 4, 1, 'triangulate_column'
-            call = lambda: geo.triangulate_column(col.name, chars, spaces)
+            call = lambda: geo.triangulate_column(col.name, chars_arg, spaces)
             want_cols, want_nodes = len(geo.columnlist) + 3, len(geo.nodelist) + 1
         else:
             col = geo.columnlist[0]
             need_c, need_n, op = None, 1, 'refine'
-            call = lambda: geo.refine([col], chars=chars, spaces=spaces)
+            call = lambda: geo.refine([col], chars=chars_arg, spaces=spaces)
             want_cols, want_nodes = None, None
         must_raise = fn < need_n or (need_c is not None and fc < need_c)
         must_succeed = need_c is not None and not must_raise
@@ -997,7 +1060,9 @@ def edit_sequence(conv, cs, seq, spaces, atm, grid):
 
 def run_ED(unit, tier, rec):
     _, conv, cs, seq = unit
-    for spaces in ((True,) if seq == 'split' else (True, False)):
+    # without blanks a repeated letter makes 'which name belongs to the number 0' ambiguous for the operations that
+    # take the alphabet as it is: the repeated-letter alphabet is run with blanks allowed only
+    for spaces in ((True,) if (seq == 'split' or len(set(cs)) != len(cs)) else (True, False)):
         for atm in (0, 2):
             for grid in EDIT_GRIDS:
                 with core.timelimit(300):
@@ -1010,6 +1075,36 @@ def run_ED(unit, tier, rec):
                 for sig, what, st in viol:
                     rec.violation(sig, what, {'kind': 'edit-sequence', 'conv': conv, 'chars': cs, 'seq': seq, 'spaces': spaces,
                                               'atmos': atm, 'grid': list(grid), 'step': st})
+
+
+def run_C(unit, tier, rec):
+    """The constructors other than rectangular(): same clauses, same options; each also called on an object whose own
+    convention differs from the one asked for (the result must not depend on it)."""
+    _, builder, conv, j = unit
+    n = 0
+    for cs in CONSTRUCTOR_CHARSETS:
+        for sp in (True, False):
+            for atm in ((2,) if builder == 'from_amesh' else (0, 1, 2)):
+                for (nx, ny, nz) in CONSTRUCTOR_SIZES[tier]:
+                    if builder == 'from_amesh' and nx * ny > 40:
+                        continue           # from_amesh rebuilds a search tree per point: keep its meshes small
+                    if atm == 1 and (nx, ny, nz) not in CONSTRUCTOR_SIZES[tier][:3]:
+                        continue
+                    base_sigs = set()
+                    for self_conv in ((0, 2) if (nx, ny, nz) in CONSTRUCTOR_SIZES[tier][:4] else (0,)):
+                        viol, oc = geometry_case(conv, atm, j, cs, sp, nx, ny, nz, file_cycle=False, builder=builder,
+                                                 self_conv=self_conv)
+                        if self_conv == 0:
+                            base_sigs = set(sig for sig, what in viol)
+                        else:       # report the route only where it changes the verdict
+                            viol = [(sig, what) for sig, what in viol if sig.split('|called-on-')[0] not in base_sigs]
+                        n += 1
+                        rec.case(('C', builder, conv, atm, j, cs, sp, nx, ny, nz, self_conv), outcome=builder.split('-')[0] + ':' + oc)
+                        for sig, what in viol:
+                            rec.violation(sig, what, {'kind': 'geometry', 'builder': builder, 'self_conv': self_conv,
+                                                      'conv': conv, 'atmos': atm, 'justify': j, 'chars': cs, 'spaces': sp,
+                                                      'nx': nx, 'ny': ny, 'nz': nz})
+    rec.count('geometries_by_other_constructors', n)
 
 
 def run_X(unit, tier, rec):
@@ -1139,6 +1234,8 @@ def _run_unit(unit, tier, rec):
         run_GR(unit, tier, rec)
     elif k == 'ED':
         run_ED(unit, tier, rec)
+    elif k == 'C':
+        run_C(unit, tier, rec)
     elif k == 'F':
         run_F(unit, tier, rec)
     else:
@@ -1197,7 +1294,9 @@ def replay(case):
         return check_add_layers(case['conv'], case['justify'], case['chars'], case['spaces'], case['nz'])[0]
     if k == 'geometry':
         return geometry_case(case['conv'], case['atmos'], case['justify'], case['chars'], case['spaces'],
-                             case['nx'], case['ny'], case['nz'])[0]
+                             case['nx'], case['ny'], case['nz'], builder=case.get('builder', 'rectangular'),
+                             self_conv=case.get('self_conv', 0),
+                             file_cycle=False if case.get('builder', 'rectangular') != 'rectangular' else None)[0]
     if k == 'name':
         m = lib()
         return fixunfix_clauses(m.fix_blockname, m.unfix_blockname, case['name']) + mapping_clauses(m, case['name'])
